@@ -8,7 +8,10 @@ Local Open Scope N_scope.
    flag, and stop() clears the flag *)
 Theorem C09_gen_obligation :
   NODE_WAITS_BOUNDED_BY_SAMPLING_TIMEOUT = true /\ NODE_WAITS_AT_LOOP_HEADS_THAT_READ_THE_FLAG = true /\
-  NODE_STOP_CLEARS_RUNNING = true /\ SAMPLING_TIMEOUT_MS <= 1000.
+  NODE_STOP_CLEARS_RUNNING = true /\ SAMPLING_TIMEOUT_MS <= 1000 /\
+  (* events.rs: receive_timeout(t) measures what is left of t from the start of the call, whatever
+     wakes it up in between: the signal wait of the listener is bounded by SAMPLING_TIMEOUT in total *)
+  RECEIVE_TIMEOUT_REMAINING_FROM_START = true.
 Proof. repeat split; vm_compute; try reflexivity; discriminate. Qed.
 
 (* stop() called from inside callback invocation k (by whichever thread runs it, in any listener
